@@ -118,6 +118,37 @@ REVERTS = [
 """),
     ('revert-F30-rename-through-self-fs', ['C09'], 'fastparquet/api.py',
      "            rename = self.fs.rename if hasattr(self, 'fs') else os.rename\n", "            rename = self.fs.rename\n"),
+    ('revert-F31-index-level-overwrites-column', ['C01'], 'fastparquet/util.py',
+     """            if name in data.columns:
+                # as reset_index() refuses below for a plain index
+                raise ValueError("cannot insert %s, already exists" % name)
+""", ""),
+    ('revert-F32-dtypes-stored-per-call', ['C17', 'C20'], 'fastparquet/api.py',
+     """            dtype[cat] = "category"
+        return dtype
+""", """            dtype[cat] = "category"
+        self.dtypes = dtype
+        return dtype
+"""),
+    ('revert-F33-copy-shares-schema-elements', ['C20'], 'fastparquet/api.py',
+     '        return {"fn": self.fn, "open": self.open, "fmd": fmd,\n                "pandas_nulls": self.pandas_nulls, "_base_dtype": self._base_dtype,\n                "tz": self.tz}\n',
+     '        return {"fn": self.fn, "open": self.open, "fmd": self.fmd,\n                "pandas_nulls": self.pandas_nulls, "_base_dtype": self._base_dtype,\n                "tz": self.tz}\n'),
+    ('revert-F34-part-file-for-empty-chunk', ['C01'], 'fastparquet/writer.py',
+     """            if len(row_group) == 0:
+                # no part file for an empty chunk (make_part_file writes
+                # nothing and returns None), as in the partitioned case
+                continue
+""", ""),
+    ('revert-F35-timedelta-stored-raw', ['C01'], 'fastparquet/writer.py',
+     "            out = data.values.astype('m8[us]')\n", "            out = data.values\n"),
+    ('revert-F36-categorical-stats-by-position', ['C04', 'C05'], 'fastparquet/writer.py',
+     """            dnnu = data0.unique().dropna()
+            dnnu = pd.Series(dnnu.astype(dnnu.categories.dtype))
+""", """            dnnu = data0.unique().as_ordered()
+"""),
+    ('revert-F37-overwrite-keys-astype-str', ['C09'], 'fastparquet/writer.py',
+     "    keys = data.loc[:,defined_partitions].apply(lambda col: col.map(path_string))\n",
+     "    keys = data.loc[:,defined_partitions].astype(str)\n"),
 ]
 
 # functions whose twins are run per property (module, qualname)
